@@ -170,7 +170,19 @@ class SourceFile:
             raise LostAnchor("container `%s` not found in %s" % (container, self.relpath))
         return hits
 
-    def find(self, kind, name, container=None, nth=None):
+    def find(self, kind, name, container=None, nth=None, inside_fn=None):
+        if inside_fn is not None:
+            # a function nested in the body of the top-level function `inside_fn`: search that body only, one brace level down
+            outer = self.find("fn", inside_fn, container)
+            o = find_body_open(self.mask, outer.start)
+            pat = r"fn\s+%s\b" % re.escape(name)
+            hits = [o + 1 + m.start() for m in re.finditer(pat, self.mask[o + 1:outer.end]) if self._depth(o + 1, o + 1 + m.start()) == 0]
+            if kind != "fn" or len(hits) != 1:
+                raise LostAnchor("nested fn `%s` in `%s` found %d times in %s" % (name, inside_fn, len(hits), self.relpath))
+            s = hits[0]
+            b = find_body_open(self.mask, s)
+            e = match_close(self.mask, b) + 1
+            return Item(self.path, self.relpath, self.src, s, e, kind, name, b)
         regions = self._region(container)
         if container is None:
             regions = [regions]
